@@ -237,13 +237,21 @@ func (r *Report) Finish(verifDir string, seed int64, checkerCmd string) int {
 	for k, v := range r.Extra {
 		cov[k] = v
 	}
+	assumes := append([]string{}, r.Assumes...)
+	assumes = append(assumes, r.Trusted...)
+	if r.Trusted == nil {
+		r.Trusted = []string{}
+	}
+	if r.Notes == nil {
+		r.Notes = []string{}
+	}
 	ev := map[string]any{
 		"property_id": r.Prop,
 		"tier":        r.Tier,
 		"seed":        seed,
 		"level":       "other",
 		"coverage":    cov,
-		"assumptions": r.Assumes,
+		"assumptions": assumes,
 		"wall_s":      time.Since(r.start).Seconds(),
 		"violations":  len(violLines),
 	}
